@@ -351,6 +351,17 @@ func leafValue(node parquet.Node, v reflect.Value, r, d int) LV {
 		}
 		return lv
 	}
+	if v.IsValid() && v.Type() == reflect.TypeOf(time.Duration(0)) && lt != nil {
+		if tt, ok := lt.Value.(*format.TimeType); ok && tt.Unit.Value != nil {
+			// a time.Duration field tagged time(unit): nanoseconds in Go, the column's unit in the file
+			lv.Kind = KInt64
+			if kind == parquet.Int32 {
+				lv.Kind = KInt32
+			}
+			lv.I = v.Int() / int64(tt.Unit.Value.Duration())
+			return lv
+		}
+	}
 	switch kind {
 	case parquet.Boolean:
 		lv.Kind = KBool
